@@ -61,8 +61,11 @@ class UVLReader(TextToModel):
         stream = CommonTokenStream(lexer)
         parser = UVLPythonParser(stream)
 
-        # Attach custom error listener
+        # Attach custom error listener (to the lexer too: a character that starts no token
+        # is a syntax error, not something to print and skip)
         error_listener = CustomErrorListener()
+        lexer.removeErrorListeners()
+        lexer.addErrorListener(error_listener)
         parser.removeErrorListeners()
         parser.addErrorListener(error_listener)
 
